@@ -48,7 +48,7 @@ CHECKS = {
          "8 sharing scenarios x G in {4,16,64} goroutines x 5/120 repetitions x 6 rounds on freshly built shared values (no warm-up: first uses happen under concurrency; RequireSets with spare capacity and shared backing arrays) under the race detector; zero reports with spg frames, concurrent callers agree among themselves and with single-threaded references computed afterwards, every concurrent password valid (structure, capitalisation positions, separators).",
          "Covers the interleavings the runs produced (happens-before race detection), not all schedules. GORACE halt_on_error=0 with log files counted by the parent.", "4/C14"),
  "C15": ("exploration", "history monitor: deep before/after snapshots of the whole pool around every call (frame), and replay of every call on a fresh recipe in a fresh process (started from a different environment) with the same scripted stream (history independence); environment variables the library reads are discovered with the Go runtime's testlog monitor",
-         "Thousands of generated histories of calls, caller-side field updates, knob updates and process-environment changes over pools of recipes (incl. field-regrouped siblings, class overlaps, failing separator recipes) sharing lists, separator functions and RequireSets backing arrays; returned passwords re-inspected at the end.",
+         "Thousands of generated histories of calls, caller-side field updates, knob updates, process-environment changes, calls cut short by a failing source and calls repeated with a blocking source over pools of recipes (incl. field-regrouped siblings, class overlaps, failing separator recipes) sharing lists, separator functions and RequireSets backing arrays; returned passwords and returned errors re-inspected at the end; the bytes each call consumes are part of its result; a call that never returns is reported when its goroutine is seen blocked inside the library.",
          "The implementation on the trivial history is the reference; wordlist results compared as choice records.", "4/C15"),
  "C16": ("exploration", "complete enumeration of the finite configuration space with reference tables; execution-tree explorer for the exact distribution of each separator preset; element-wise comparison of shipped lists with testdata files",
          "Exhaustive: every exported flag/union, all 32 flag subsets, constructor defaults (and independence of two constructor calls), retry-budget defaults as values and as behaviour (refusal border for set-, flag- and mixed-form requirements; exactly 200 attempts; second attempt at any length), all 7 presets (every output and its exact probability, also after a knob excursion), all 28454 list entries (after the lists were used through NewWordList).",
